@@ -136,7 +136,7 @@ func judge(eng *Engine, cfg *Config, ck *CheckCfg, property, tier string, seed i
 			}
 			v := &violation{Entry: t.Entry.Entry, Label: r.Label, Kind: r.Kind, Msg: r.Msg, Pos: r.Pos, Fn: r.Fn, Picks: r.Picks, Draws: r.Draws, Finding: r.Finding, Second: r.Second, EngineOnly: r.EngineOnly}
 			if crashKinds[r.Kind] {
-				if !ck.PanicsCount {
+				if !ck.PanicsCount && !(ck.LocksCount && (r.Kind == "self-deadlock" || r.Kind == "lock-leak")) {
 					otherCrash++
 					continue
 				}
@@ -244,9 +244,9 @@ func judge(eng *Engine, cfg *Config, ck *CheckCfg, property, tier string, seed i
 	// lockset (C16, L1): every pair of accesses to one shared cell from operations that may run
 	// concurrently, at least one of them a write, must hold a common lock (read locks only
 	// count against writers)
-	if property == "C16" {
+	if property == "C16" || ck.Lockset {
 		for _, lv := range locksetViolations(accAll) {
-			v := &violation{Entry: lv.entry, Label: "C16 shared state is accessed under a common lock", Kind: "lockset", Msg: lv.msg, Pos: lv.pos, Native: "not-replayable (lockset verdict over symbolic paths; no schedule is executed)"}
+			v := &violation{Entry: lv.entry, Label: property + " shared state is accessed under a common lock", Kind: "lockset", Msg: lv.msg, Pos: lv.pos, Native: "not-replayable (lockset verdict over symbolic paths; no schedule is executed)"}
 			k := "lockset|" + lv.msg
 			if _, ok := groups[k]; !ok {
 				order = append(order, k)
